@@ -101,7 +101,7 @@ func GenView(r *Rng, o TreeOpts) []*MNode {
 			dirs = append(dirs, dref{node, d.depth + 1})
 		case o.Types && kind < 45:
 			st.Mode = uint32(os.ModeSymlink | 0777)
-			st.Linkname = Pick(r, []string{"a", "../a", "/a/b", "nonexistent", ".", "a/../b", "/"})
+			st.Linkname = Pick(r, []string{"a", "../a", "/a/b", "nonexistent", ".", "a/../b", "/.verif-absent"})
 			st.Size = int64(len(st.Linkname))
 		case o.Types && kind < 50:
 			st.Mode = uint32(os.ModeNamedPipe | 0644)
